@@ -168,7 +168,7 @@ pub fn run(tier: Tier, seed: u64) -> i32 {
                         digxml::Pin::new(digxml::PinKind::Out, nq).bits("8"),
                         digxml::Pin::new(digxml::PinKind::Out, "i").bits("8"),
                     ];
-                    let doc = digxml::render(&pins, &[digxml::TestDesc { label: Some("t".into()), source: laid.text.clone() }]);
+                    let doc = digxml::render(&pins, &[digxml::TestDesc { label: Some("t".into()), source: laid.text.clone(), extra: vec![] }]);
                     let loaded = guard(DEFAULT_BUDGET, || dtr::dig::File::parse(&doc).map_err(|e| miette_chain(&e)).and_then(|f| f.load_test(0).map_err(|e| miette_chain(&e))));
                     match loaded {
                         Ok(Ok(tc)) => {
